@@ -10,7 +10,25 @@ import struct
 
 
 class S(tuple):
-    __slots__ = ()
+    # terms are immutable and share sub-terms freely (a DAG): the hash is computed once per node from the children's cached
+    # hashes - tuple.__hash__ would re-walk the unfolded tree, which is exponential in the depth of a shared chain
+    def __hash__(self):
+        try:
+            return self.__dict__["_h"]
+        except KeyError:
+            h = self.__dict__["_h"] = tuple.__hash__(self)
+            return h
+
+    def __eq__(self, other):
+        if self is other:
+            return True
+        if isinstance(other, S) and hash(self) != hash(other):
+            return False
+        return tuple.__eq__(self, other)
+
+    def __ne__(self, other):
+        r = self.__eq__(other)
+        return r if r is NotImplemented else not r
 
     def __repr__(self):
         return show(self)
